@@ -121,4 +121,16 @@ example : ((Seg.new 0 31 : Option (Seg Nat)).bind fun s => (s.insert 3 3 1 1).bi
     (s.insert 3 9 2 10).bind fun s => (s.iter 0 31 5).bind fun it => (segTake 10 s it []).map
       fun r => (r.1.chunks.map List.length).sum) = some 3 := by decide
 
+/-- the same in every state reached by an in-contract history (`SegReach`): a fully consumed whole-domain query
+leaves only copies of values with expiration at least `t`, at most 8 per unexpired value — storage is bounded by
+the unexpired population, whatever was inserted before -/
+theorem C16_history {lo hi : Int} {s : Seg V} {LV : List (SegVal V)} {T : Option Int} (h : SegReach lo hi s LV T)
+    (t : Int) (n : Nat) (hT : ∀ t0, T = some t0 → t0 ≤ t) :
+    ∃ it s' it' items, s.iter s.layout.min s.layout.max t = some it ∧
+      segTake n s it [] = some (s', it', items) ∧
+      (items.length < n →
+        (∀ i e, e ∈ chunkAt s' i → t ≤ e.exp) ∧
+        (∀ e, ((List.range 63).map fun i => (chunkAt s' i).count e).sum ≤ 8 * (LV.map (SegVal.toEnt s.layout)).count e)) :=
+  C16_full_scan_purges s LV T t n h.ok hT
+
 end ITree
